@@ -187,4 +187,62 @@ theorem hexDist_is_graph_distance (c p : P2) : IsDist none none c p (hexDist c p
 
 example : concentricHexagons 1 (0, 0) = [(0, 0), (0, -1), (1, 0), (1, 1), (0, 1), (-1, 0), (-1, -1)] := by rfl
 
+/-- **from_vector across wrap-around.** On any torus with width and height ≥ 3 (the documented domain of
+`Links.from_vector`), for every chip and every link, the raw coordinate difference to the neighbour the
+link leads to - including differences of magnitude w-1 / h-1 across the wrap - is mapped back to that link. -/
+theorem fromVector_wrap (w h : Int) (hw : 3 ≤ w) (hh : 3 ≤ h) (a : P2)
+    (hx : 0 ≤ a.1 ∧ a.1 < w) (hy : 0 ≤ a.2 ∧ a.2 < h) (l : Nat) (d : P2) (hl : specVec l = some d) :
+    fromVector ((a.1 + d.1) % w - a.1) ((a.2 + d.2) % h - a.2) = some l := by
+  obtain ⟨r1, r2, hlk⟩ := specVec_range hl
+  rw [fromVector_norm, normWrap_step a.1 d.1 w hx.1 hx.2 hw r1, normWrap_step a.2 d.2 h hy.1 hy.2 hh r2]
+  exact hlk
+
+/-- **Graph-search oracle = graph distance.** The decidable test and the level search that the driver
+runs on the implementation's reported lengths decide exactly `IsDist`. -/
+theorem oracle_distIs_iff (w h : Option Int) (a b : P2) (n : Nat) :
+    distIs w h a b n = true ↔ IsDist w h a b n := distIs_iff w h a b n
+
+theorem oracle_levelOf_isDist (w h : Option Int) (a p : P2) (n r : Nat)
+    (hr : levelOf p (ballsFrom w h n [a]) 0 = some r) : IsDist w h a p r :=
+  levelOf_isDist w h a p n r hr
+
+/-- **links_between** returns (never KeyError) exactly the links that, by the hexagonal neighbourhood,
+lead from `a` to `b` with wrap-around and are working on the machine. -/
+theorem linksBetween_exact (a b : P2) (m : Mach) :
+    linksBetween a b m = some (specLinksBetween a b m) := linksBetween_spec a b m
+
+theorem specLinksBetween_mem (a b : P2) (m : Mach) (l : Nat) :
+    l ∈ specLinksBetween a b m ↔
+      l < 6 ∧ ∃ d, specVec l = some d ∧ stepTo (some m.w) (some m.h) a d = b ∧ m.hasLink a l = true := by
+  simp only [specLinksBetween, List.mem_filter, List.mem_range]
+  constructor
+  · rintro ⟨h1, h2⟩
+    refine ⟨h1, ?_⟩
+    cases hs : specVec l with
+    | none => simp [hs] at h2
+    | some d => simp only [hs, Bool.and_eq_true, beq_iff_eq] at h2; exact ⟨d, rfl, h2.1, h2.2⟩
+  · rintro ⟨h1, d, hs, h2, h3⟩
+    exact ⟨h1, by simp [hs, h2, h3]⟩
+
+/-- **Opposite link returns.** On a torus with positive width and height, taking link `l` from an in-range
+chip and then the opposite link from the chip reached leads back. -/
+theorem opposite_returns (w h : Int) (hw : 0 < w) (hh : 0 < h) (a : P2)
+    (hx : 0 ≤ a.1 ∧ a.1 < w) (hy : 0 ≤ a.2 ∧ a.2 < h) (l : Nat) (d : P2) (hl : specVec l = some d) :
+    ∃ d', specVec (opposite l) = some d' ∧
+      stepTo (some w) (some h) (stepTo (some w) (some h) a d) d' = a := by
+  have hl6 : l < 6 := by
+    match l, hl with
+    | 0, _ | 1, _ | 2, _ | 3, _ | 4, _ | 5, _ => omega
+    | (n + 6), h => simp [specVec] at h
+  obtain ⟨_, h1, _, h3, _, _⟩ := links_consistent
+  have ho := h3 l hl6 d (by rw [h1 l hl6]; exact hl)
+  rw [h1 (opposite l) (by have := Nat.mod_lt (l + 3) (show 0 < 6 by omega); simpa [opposite] using this)] at ho
+  refine ⟨_, ho, ?_⟩
+  rw [stepTo_some hw hh, stepTo_some hw hh]
+  simp only
+  rw [Int.emod_add_emod, Int.emod_add_emod]
+  ext
+  · simp only; rw [show a.1 + d.1 + -d.1 = a.1 by omega, Int.emod_eq_of_lt hx.1 hx.2]
+  · simp only; rw [show a.2 + d.2 + -d.2 = a.2 by omega, Int.emod_eq_of_lt hy.1 hy.2]
+
 end Rig.C11
